@@ -175,3 +175,25 @@ def source_thresholds(files, repo=None):
             elif isinstance(node, ast.AnnAssign) and node.value is not None and isinstance(node.value, (ast.Constant, ast.BinOp, ast.UnaryOp)):
                 take(node.value)
     return sorted(out)
+
+
+def size_candidates(ints, blocks=(16,), cap=None, min_size=2):
+    """payload lengths around every size in `ints` (and around the powers of two next to each): L-1, L, L+1, 2L, 3L, L +- b and the next
+    four multiples of b at or above L for every block size b - the lengths at which a chunked / block-wise path changes behaviour
+    (last chunk full, empty tail, exactly one block over).  Sorted, distinct, within [0, cap]."""
+    base = set()
+    for v in ints:
+        if v < min_size:
+            continue
+        base.add(v)
+        p = 1 << (v.bit_length() - 1)
+        base |= {p, 2 * p}
+    out = set()
+    for L in base:
+        out |= {L - 1, L, L + 1, 2 * L - 1, 2 * L, 2 * L + 1, 3 * L}
+        for b in blocks:
+            if b < 1:
+                continue
+            up = -(-L // b) * b
+            out |= {L - b, L + b, 2 * L + b, up, up + b, up + 2 * b, up + 3 * b, up - b}
+    return sorted(x for x in out if x >= 0 and (cap is None or x <= cap))
